@@ -90,6 +90,11 @@ func checkC11(r *core.Run) {
 			r.Witness(cl, "", s, fmt.Sprintf("URLSanitized(%s)=%s: %s", core.Q(s), core.Q(safehtml.URLSanitized(s).String()), what), map[string]string{"Input": s})
 		}
 	}
+	// hidden state between calls (runs first, sequentially)
+	pairLayer(r, strPairItems([]string{"", "a", "/", "/a", "//a", "?a", "#a", "a/b:c", "a?b:c", "a:b", "http:", "http://a", "https://a/b", "HTTP://A", "mailto:x", "ftp://x", "tel:1", "data:text/html,x",
+		"javascript:x", "JAVASCRIPT:x", "JavaScript:alert(1)", "\x00javascript:x", " javascript:x", "java\tscript:x", "javascript\n:x", "javascript&#58;x", "javascript&colon;x", "&#106;avascript:x",
+		"javascript", "javascript/", "javascript/:x", "/javascript:x", "http://javascript:x", "j", "javascript:", "x-javascript:y", "javascript-x:y", "a&b", "a/&b", "&", ":", "\xff:", "\u0130:",
+		strings.Repeat("a", 100) + ":x", strings.Repeat("/", 70) + "javascript:x", "javascript:" + strings.Repeat("x", 200)}, c11Judge))
 	const js = "javascript:"
 	foldings := make([]string, 0, 1024)
 	for m := 0; m < 1024; m++ {
